@@ -37,6 +37,14 @@ type c12Case struct {
 	Name      string // the method name the client calls
 	ViaStream bool   // call through NewStream instead of Invoke
 	Origin    string `json:",omitempty"`
+	// Pre: calls made on the same channel before the one that is judged (state must not leak from
+	// one call to the next): each is a name and whether it goes through NewStream
+	Pre []c12Call `json:",omitempty"`
+}
+
+type c12Call struct {
+	Name      string
+	ViaStream bool
 }
 
 type c12Counters struct {
@@ -135,6 +143,42 @@ func propC12(c c12Case) *Outcome {
 	o.NonTrivial = !exact || (isHTTP(c.Carrier) && c.Base != "/")
 	if isHTTP(c.Carrier) {
 		o.class("base-segments=%d", strings.Count(strings.Trim(c.Base, "/"), "/")+btoi(strings.Trim(c.Base, "/") != ""))
+	}
+	doCall := func(name string, viaStream bool) error {
+		ctx, cancel := context.WithCancel(context.Background())
+		defer cancel()
+		if viaStream {
+			cs, err := conn.NewStream(ctx, &grpc.StreamDesc{ClientStreams: true, ServerStreams: true}, name)
+			if err != nil {
+				return err
+			}
+			cs.SendMsg(&pb.Message{})
+			cs.CloseSend()
+			for i := 0; i < 3; i++ {
+				if err = cs.RecvMsg(new(pb.Message)); err != nil {
+					break
+				}
+			}
+			if fmt.Sprint(err) == "EOF" {
+				err = nil
+			}
+			return err
+		}
+		return conn.Invoke(ctx, name, &pb.Message{}, new(pb.Message))
+	}
+	if len(c.Pre) > 0 {
+		o.class("preceded-by-other-calls")
+		if s := guard("preceding calls", func() {
+			defer func() { recover() }()
+			for _, pc := range c.Pre {
+				doCall(pc.Name, pc.ViaStream)
+			}
+		}); s != "" {
+			return o.failf("%s: preceding calls stalled: %s", c.Carrier, s)
+		}
+		ctr.mu.Lock()
+		ctr.n = map[string]int{} // only the judged call counts
+		ctr.mu.Unlock()
 	}
 	var err error
 	panicked := ""
@@ -324,6 +368,24 @@ func genC12(t *rapid.T) c12Case {
 	default:
 		c.Name = rapid.SampledFrom(all).Draw(t, "other-registered")
 		c.ViaStream = !isUnary[c.Name]
+	}
+	if rapid.IntRange(0, 2).Draw(t, "pre") == 0 {
+		np := rapid.IntRange(1, 3).Draw(t, "npre")
+		for i := 0; i < np; i++ {
+			// the same or another registered name, possibly through the wrong kind of call, or a near miss
+			pn := rapid.SampledFrom(all).Draw(t, "prename")
+			if rapid.Bool().Draw(t, "presame") {
+				pn = reg
+			}
+			pc := c12Call{Name: pn, ViaStream: !isUnary[pn]}
+			switch rapid.IntRange(0, 3).Draw(t, "prekind") {
+			case 0:
+				pc.ViaStream = !pc.ViaStream
+			case 1:
+				pc.Name += "x"
+			}
+			c.Pre = append(c.Pre, pc)
+		}
 	}
 	return c
 }
